@@ -40,3 +40,142 @@ func (gp *GoPool) MustGo(fn func(), ctx ...context.Context) error {
 	vsync.Go(fn)
 	return nil
 }
+
+// ---- Workshop: the multiplexed resource pool used by mixer/multiclient ----
+// A deterministic re-implementation of goutil/pool.Workshop's documented behaviour (hire an idle healthy worker,
+// else create one while below the quota, else the least loaded healthy one; unhealthy workers are closed and
+// dropped) without the background collector goroutine and its clock.
+
+type Worker interface {
+	Health() bool
+	Close() error
+}
+
+type WorkshopStats struct {
+	Worker  int32
+	Idle    int32
+	Created uint64
+	Doing   int32
+	Done    uint64
+	MaxLoad int32
+	MinLoad int32
+}
+
+var ErrWorkshopClosed = errWorkshopClosed{}
+
+type errWorkshopClosed struct{}
+
+func (errWorkshopClosed) Error() string { return "workshop is closed" }
+
+type wsInfo struct {
+	w    Worker
+	jobs int
+}
+
+type Workshop struct {
+	mu     vsync.Mutex
+	quota  int
+	newFn  func() (Worker, error)
+	infos  []*wsInfo
+	closed bool
+	stats  WorkshopStats
+}
+
+//go:norace
+func NewWorkshop(maxQuota int, maxIdleDuration time.Duration, newWorkerFunc func() (Worker, error)) *Workshop {
+	if maxQuota <= 0 {
+		maxQuota = 64
+	}
+	return &Workshop{quota: maxQuota, newFn: newWorkerFunc}
+}
+
+//go:norace
+func (w *Workshop) dropUnhealthyLocked() {
+	kept := w.infos[:0]
+	for _, in := range w.infos {
+		if in.w.Health() {
+			kept = append(kept, in)
+		} else if in.jobs == 0 {
+			in.w.Close()
+		} else {
+			in.w.Close()
+		}
+	}
+	w.infos = kept
+}
+
+//go:norace
+func (w *Workshop) Hire() (Worker, error) {
+	w.mu.Lock()
+	defer w.mu.Unlock()
+	if w.closed {
+		return nil, ErrWorkshopClosed
+	}
+	w.dropUnhealthyLocked()
+	var best *wsInfo
+	for _, in := range w.infos {
+		if best == nil || in.jobs < best.jobs {
+			best = in
+		}
+	}
+	if best != nil && (best.jobs == 0 || len(w.infos) >= w.quota) {
+		best.jobs++
+		w.stats.Doing++
+		return best.w, nil
+	}
+	nw, err := w.newFn()
+	if err != nil {
+		return nil, err
+	}
+	w.infos = append(w.infos, &wsInfo{w: nw, jobs: 1})
+	w.stats.Created++
+	w.stats.Doing++
+	return nw, nil
+}
+
+//go:norace
+func (w *Workshop) Fire(worker Worker) {
+	w.mu.Lock()
+	defer w.mu.Unlock()
+	for _, in := range w.infos {
+		if in.w == worker {
+			in.jobs--
+			w.stats.Doing--
+			w.stats.Done++
+			return
+		}
+	}
+	if worker != nil {
+		worker.Close()
+	}
+}
+
+//go:norace
+func (w *Workshop) Callback(fn func(Worker) error) error {
+	wk, err := w.Hire()
+	if err != nil {
+		return err
+	}
+	defer w.Fire(wk)
+	return fn(wk)
+}
+
+//go:norace
+func (w *Workshop) Close() {
+	w.mu.Lock()
+	defer w.mu.Unlock()
+	w.closed = true
+	for _, in := range w.infos {
+		in.w.Close()
+	}
+	w.infos = nil
+}
+
+//go:norace
+func (w *Workshop) Stats() WorkshopStats {
+	w.mu.Lock()
+	defer w.mu.Unlock()
+	s := w.stats
+	s.Worker = int32(len(w.infos))
+	return s
+}
